@@ -36,20 +36,8 @@ def jVal : Val → Json
 def jStrs (l : List String) : Json := Json.arr (l.map Json.str).toArray
 def dotted (p : List String) : String := ".".intercalate p
 
-def errNameP : PErr → String
-  | .value => "ValueError" | .type_ => "TypeError" | .attr_ => "AttributeError" | .illFormed => "illFormed"
-
-/-- the watcher tables of every object, as the harness reads them -/
-def tablesOf (w : PWorld) : List DW × List (Oid × String × DW) :=
-  let rows := w.objs.zipIdx.flatMap fun (ob, o) =>
-    match w.classes[ob.cls]? with
-    | none => []
-    | some c => c.paramNames.flatMap fun q =>
-        (w.watchers.filter (fun x => x.on = o && x.params.contains q)).map (fun x => (o, q, x))
-  (w.watchers, rows)
-
 def jTables (w : PWorld) : Json :=
-  Json.arr ((tablesOf w).2.map fun (o, q, x) =>
+  Json.arr ((watcherRows w).map fun (o, q, x) =>
     Json.arr #[toJson o, Json.str q, toJson x.owner, Json.str x.method,
       (match x.changed with | some ps => jStrs (ps.map dotted) | none => Json.null),
       Json.bool x.callback.isSome, jStrs x.params]).toArray
@@ -86,23 +74,17 @@ def handle (req : Json) : Except String Json := do
   let case ← req.getObjVal? "case"
   let classes ← (← getArr case "classes").toList.mapM parseClassP
   let steps ← (← getArr case "steps").toList.mapM parseStep
-  let wf := classes.all (fun c => c.methods.all (fun m => m.specs.all wfSpecB))
-  let w0 : PWorld := { classes := classes, objs := [], watchers := [], dyn := [], nextId := 0, log := [] }
+  let wf := wfClasses classes
   -- model run: stop at the first exception
-  let (_, revSteps, _) := steps.foldl (fun (acc : PWorld × List (Json × PStepObs) × Bool) st =>
-      let (w, l, dead) := acc
-      if dead then acc else
-      match runStep { w with log := [] } st with
-      | .error e => (w, (Json.mkObj [("err", Json.str (errNameP e))], { err := some (errNameP e), calls := [], watchers := [] }) :: l, true)
-      | .ok w' =>
-        let obs : PStepObs := { err := none, calls := w'.log.map (fun c => (c.owner, c.method)),
-                                watchers := (tablesOf w').2.map (fun (o, q, x) => ⟨o, q, x.owner, x.method⟩) }
-        (w', (jStepOk w', obs) :: l, false)) (w0, [], false)
-  let mSteps := revSteps.reverse
+  let results := runHistory (emptyWorld classes) steps
+  let mSteps : List (Json × PStepObs) := results.map fun
+    | .ok w' => (jStepOk w', obsOfWorld w')
+    | .error e => (Json.mkObj [("err", Json.str (errNameP e))], { err := some (errNameP e), calls := [], watchers := [] })
   let model := Json.mkObj [("steps", Json.arr (mSteps.map (·.1)).toArray)]
   let impl ← req.getObjVal? "impl"
   let implObs ← parseObsP impl
   let (nImpl, sImpl) := if wf then specHistoryP classes 0 [] (steps.zip implObs) else (0, none)
+  let sImpl := if sImpl.isSome && !(impl == model) then some ("model differs from implementation on an oracle-failing case: " ++ sImpl.getD "") else sImpl
   let (_, sModel0) := if wf then specHistoryP classes 0 [] (steps.zip (mSteps.map (·.2))) else (0, none)
   -- the model mirrors the code as written: where the specification fails on the implementation it
   -- may fail on the model too
@@ -114,6 +96,7 @@ def handle (req : Json) : Except String Json := do
     (if classes.any (fun c => c.methods.any (fun m => m.specs.length ≥ 2)) then ["deps:several"] else ["deps:one"]) ++
     (if classes.any (fun c => c.methods.any (fun m => m.specs.any (fun s => s.leaf == "param"))) then ["leaf:param"] else []) ++
     (if mSteps.any (fun s => s.2.err.isSome) then ["step:error"] else []) ++
+    (if impl == model then ["json:model-equals-impl"] else ["json:model-differs"]) ++
     (if mSteps.any (fun s => !s.2.calls.isEmpty) then ["fired"] else [])
   return Json.mkObj [("model", model), ("applicable", Json.bool wf),
     ("spec_impl", optJ sImpl), ("spec_model", optJ sModel), ("checked_steps", toJson nImpl),
